@@ -58,7 +58,9 @@ def _case_step(cfg, state, velocity, forcing, steps, seed, backend):
         if pos.shape != (d, *c["shape"]) or not np.all(np.abs(got_ax - want) <= 8 * eps * c["x_range"] * max(c["shape"]) / c["shape"][-1]):
             fails.append(Fail(f"{tag}:grid-coordinates", "cell-centre coordinate field is not (i + 1/2) dx along the documented axis", component=ax, cfg=c))
             break
-    t_expected = float(sim.time)
+    t_expected = float(c["time0"])  # the clock starts at the time given to the constructor
+    if float(sim.time) != t_expected:
+        fails.append(Fail(f"{tag}:clock", "simulator clock does not start at the time passed to the constructor", got=float(sim.time), want=t_expected))
     second = None
     if isinstance(steps, str):  # "2:single" / "2:zero": the second step starts from a re-loaded state
         steps, second = int(steps.split(":")[0]), steps.split(":")[1]
@@ -168,19 +170,19 @@ def lattice_cases(tier, seed):
     out = []
     dev = {"quick": 2, "dev1": 1}.get(tier, 3)
     pat = {"state": simcfg.STATE_PATTERNS, "velocity": simcfg.VELOCITY_PATTERNS}
-    ns_common = {"dtype": ["float64", "float32"], "forcing": [True, False], "stream": [True, False], "stream_kind": simcfg.STREAM_KINDS, "width": [2, 0, 1, 3, 4], "params": PARAMS, "x_range": X_RANGES,
+    ns_common = {"dtype": ["float64", "float32"], "forcing": [True, False], "stream": [True, False], "stream_kind": simcfg.STREAM_KINDS, "width": [2, 0, 1, 3, 4], "params": PARAMS, "x_range": X_RANGES, "time0": [0.0, 3.7],
                  "steps": [1, 2, "2:single", "2:zero"], **pat, "forcing_pat": simcfg.FORCING_PATTERNS}
     kinds = {
         "ns2d": {**ns_common, "shape": SHAPES[2]},
-        "ns3d": {**ns_common, "shape": SHAPES[3], "filter": FILTERS, "poisson": ["greens", "fastdiag"]},
-        "pt2d": {"dtype": ["float64", "float32"], "params": PARAMS, "x_range": X_RANGES, "steps": [1, 2, "2:single", "2:zero"], **pat, "shape": SHAPES[2]},
-        "pt3ds": {"dtype": ["float64", "float32"], "params": PARAMS, "x_range": X_RANGES, "steps": [1, 2, "2:single", "2:zero"], **pat, "shape": SHAPES[3]},
-        "pt3dv": {"dtype": ["float64", "float32"], "params": PARAMS, "x_range": X_RANGES, "steps": [1, 2, "2:single", "2:zero"], **pat, "shape": SHAPES[3]},
+        "ns3d": {**ns_common, "shape": SHAPES[3], "filter": FILTERS + ["default"], "poisson": ["greens", "fastdiag"]},
+        "pt2d": {"dtype": ["float64", "float32"], "params": PARAMS, "x_range": X_RANGES, "time0": [0.0, 3.7], "steps": [1, 2, "2:single", "2:zero"], **pat, "shape": SHAPES[2]},
+        "pt3ds": {"dtype": ["float64", "float32"], "params": PARAMS, "x_range": X_RANGES, "time0": [0.0, 3.7], "steps": [1, 2, "2:single", "2:zero"], **pat, "shape": SHAPES[3]},
+        "pt3dv": {"dtype": ["float64", "float32"], "params": PARAMS, "x_range": X_RANGES, "time0": [0.0, 3.7], "steps": [1, 2, "2:single", "2:zero"], **pat, "shape": SHAPES[3]},
     }
     for kind, axes in kinds.items():
         for pt in explore.lattice(axes, dev):
             cfg = {"kind": kind, "dtype": pt["dtype"], "params": pt["params"], "shape": pt["shape"]}
-            for k in ("forcing", "stream", "stream_kind", "width", "filter", "poisson", "x_range"):
+            for k in ("forcing", "stream", "stream_kind", "width", "filter", "poisson", "x_range", "time0"):
                 if k in pt:
                     cfg[k] = pt[k]
             out.append(dict(cfg=cfg, state=pt["state"], velocity=pt["velocity"], forcing=pt.get("forcing_pat", "none"), steps=pt["steps"], seed=seed))
@@ -220,7 +222,7 @@ def run(r) -> None:
         jit_cases = [dict(c, backend="jit") for c in lattice_cases_dev1(r.seed)]
         r.run_cases("step-lattice-jit", "step", jit_cases, chunksize=6)
         r.extra["jit_traces"] = len(jit_cases)
-    r.bounds = {"deviation": 2 if r.tier == "quick" else 3, "cases": len(cases), "shapes": SHAPES, "params": PARAMS, "filters": FILTERS, "x_ranges": X_RANGES,
+    r.bounds = {"deviation": 2 if r.tier == "quick" else 3, "cases": len(cases), "shapes": SHAPES, "params": PARAMS, "filters": FILTERS + ["filter_vorticity=True without a settings dictionary"], "x_ranges": X_RANGES, "initial_time": [0.0, 3.7],
                 "widths": [0, 1, 2, 3, 4], "state_patterns": simcfg.STATE_PATTERNS, "velocity_patterns": simcfg.VELOCITY_PATTERNS, "forcing_patterns": simcfg.FORCING_PATTERNS, "steps": [1, 2, "2 with the second step re-loaded with a single non-zero component", "2 with the second step from the all-zero field"]}
     r.extra["rule"] = "one state per executed time step of each (configuration, pattern, history length) tuple of the deviation-bounded lattice; every step compared cell by cell with the independent reference"
     r.assumptions = ["small-scope: field values from finite pattern alphabets on grids of ~12 cells a side", "kernels on the interpreter back end, bound to the generated code by conformance replay",
